@@ -82,6 +82,10 @@ CHECKS = {
             "Decides race-freedom preconditions for distinct instances: registries accessed only under one mutex in a single get-or-create region, no unsynchronised mutable object reachable from state shared by all instances of a type, package-level variables write-once. Equivalence of concurrent and sequential results is not decided.",
             "go/types, go/cfg of x/tools v0.29.0; Go memory model; allow-list: sync.*, *regexp.Regexp",
             "DESIGN.md 5/C19"),
+    "C20": ("static analysis: typed-syntax rule for coinciding type-parameter cases, definite-zero ordinal path query (PATH), per-kind element-operation table against the parser's construction, sibling cross-check of the seven dispatch skeletons, self-fill rule (SYM, shared with C05)",
+            "Decides: Association routes both arguments for identical type instantiations; no zero ordinals; each CDCN-source branch is order-equivalent to the parser for its kind; every argument kind is tested once and passed on, the notation reaches the class, emptiness guards are consistent with the default arm. Equality of contents for generated data is not decided.",
+            "go/types, go/cfg of x/tools v0.29.0; the per-kind operation table in checker/c20.go",
+            "DESIGN.md 5/C20"),
 }
 
 NOT_YET = "no structural clause is checked yet in this round; the behavioural property itself quantifies over histories/schedules/inputs that static analysis in reach cannot bound"
